@@ -7,8 +7,8 @@ MOD = "heap_c30"
 S3 = "InnerHeap::grow -> false"
 
 
-def H(name, cost, desc, bounds, **kw):
-    return Harness(SRC, MOD, name, cost=cost, desc=desc, bounds=bounds, stubs=(S3,), **kw)
+def H(name, cost, desc, bounds, stubs=None, **kw):
+    return Harness(SRC, MOD, name, cost=cost, desc=desc, bounds=bounds, stubs=tuple(stubs or (S3,)), **kw)
 
 
 HARNESSES = [
@@ -24,10 +24,15 @@ HARNESSES = [
       "not fit, and then cleanly", "s_len 1..7, len 3..5"),
     H("c30_list_builder_fails_cleanly", 60, "sized_iter_to_heap_list: Err iff it does not fit "
       "(incl. 2*size overflow), unchanged on Err", "size 1..2 or huge"),
+    H("c30_grow_keeps_heap_when_realloc_fails", 20, "InnerHeap::grow with the allocator returning null: "
+      "false, heap untouched (the contract S3 stands for)", "cap 5, len 0..5", covers_required=False,
+      stubs=["std::alloc::realloc -> null"]),
+    H("c30_grow_doubles_when_realloc_succeeds", 20, "InnerHeap::grow on success: capacity doubled, length kept",
+      "cap 5, len 0..5", covers_required=False, stubs=["none"]),
     H("c30_allocate_str_fails_cleanly", 60, "allocate_cstr/allocate_pstr on a full heap fail "
       "before writing", "\"ab\" on a full 5-cell heap", covers_required=False),
 ]
-ENCODED = ["Heap::push_cell", "Heap::reserve", "Heap::append", "Heap::copy_slice_to_end",
+ENCODED = ["InnerHeap::grow (against std::alloc's failure contract)", "Heap::push_cell", "Heap::reserve", "Heap::append", "Heap::copy_slice_to_end",
            "Heap::copy_pstr_within", "sized_iter_to_heap_list", "Heap::allocate_cstr (reserve half)",
            "Heap::allocate_pstr (reserve half)", "Heap::compute_pstr_size",
            "copier::copy_term (MIR: every returning path, error returns included, restores the source "
